@@ -86,6 +86,16 @@ func NewArg(x value.Value, attrs ...ParamAttribute) *Arg {
 	return &Arg{Value: x, Attrs: attrs}
 }
 
+// argOperand returns the operand slot of a call argument: the value inside an
+// argument that carries parameter attributes (*Arg), so that the value used is
+// the one the slot exposes, and the argument itself otherwise.
+func argOperand(arg *value.Value) *value.Value {
+	if a, ok := (*arg).(*Arg); ok && a != nil {
+		return &a.Value
+	}
+	return arg
+}
+
 // String returns a string representation of the function argument.
 func (arg *Arg) String() string {
 	// Typ=ConcreteType Attrs=ParamAttribute* Val=Value
